@@ -15,8 +15,8 @@ from fractions import Fraction
 from common import frac, rstr, rparse, close, VERIF, REPO
 
 ID = "C12"
-LEAN_TARGETS = ["Strengths.Props.C12", "Strengths.Props.C12Classes"]
-PROP_FILES = ["Strengths/Props/C12.lean", "Strengths/Props/C12Classes.lean"]
+LEAN_TARGETS = ["Strengths.Props.C12", "Strengths.Props.C12Classes", "Strengths.Props.C12Traj"]
+PROP_FILES = ["Strengths/Props/C12.lean", "Strengths/Props/C12Classes.lean", "Strengths/Props/C12Traj.lean"]
 GEN_GROUPS = ["DictKeys", "Units"]
 RULE = ("objects of every kind (network, grid, graph, system, script, trajectory) are generated from a JSON-able "
         "spec (1-4 species, 0-4 reactions with orders 0-4 per side, empty sides, repeated species, labelled/unlabelled, "
@@ -883,8 +883,13 @@ def run(ctx):
         "(generic_roundtrip, toDictG_reparse): species, reaction, network, grid, graph (nodes/edges with own or inherited units), "
         "system (explicit state and chemostat map), script (t_max made explicit); the unit-text hypothesis is discharged from "
         "C18 show_parse_units (printable_of_valid).  Not covered by a theorem: systems whose state / chemostat map is left to the "
-        "generated default (C13), trajectories (save/load over real files: key tables + oracle), JSON text and file contents "
-        "(trusted primitives), children given as file paths beyond multi_file_equals_inline",
+        "generated default (C13), JSON text and file contents (trusted primitives), children given as file paths beyond "
+        "multi_file_equals_inline",
+        "trajectories: save_rdtrajectory / load_rdtrajectory are modelled over the virtual file system (Model/Dict.lean "
+        "saveTrajectory / loadTrajectory) with theorems trajectory_roundtrip_inline, trajectory_roundtrip_separate (data file named "
+        "relative to the JSON file's directory), trajectory_reserialise; the path of the file is modelled as (directory, stem): "
+        "get_base_path / get_last_element / the extension helpers on real path strings are compared with the model by the "
+        "correspondence (ops path_with_base, traj_load), not proved",
         "alias_interchangeable is proved in general (Proofs/DictAlias.lean, Props/C12Classes.lean): for every reader, every "
         "dictionary carrying the keys its writer emits (any values) and every synonym of any of its keys, the generic reader returns "
         "the same result; the key-level side conditions are evaluated on the regenerated tables (alias_checks_all).  Dictionaries "
